@@ -47,6 +47,14 @@ NEEDS = {
     "C19-s12": ("C19", "snippet FragmentCandidate::try_add_token clamps the fragment end and the highlight to start + max_num_chars in BYTES", "a query-term token longer in bytes than max_num_chars (raw tokenizer, or a small max_num_chars); panic when the cut falls inside a multi-byte code point, otherwise a highlight that is not a query term"),
     "C18-s12": ("C18", "RamDirectory::open_write checks exists() under the read lock before creating under the write lock: create-new is no longer atomic", "RamDirectory and at least two threads calling Index::writer concurrently while nobody holds the lock: several writers coexist"),
     "C20-s12": ("C20", "Footer::is_compatible only rejects versions above INDEX_FORMAT_VERSION (lower bound dropped)", "a file whose footer carries a format version below 4: opened and misread instead of IncompatibleIndex"),
+    "C01-s13": ("C01", "SegmentUpdater::save_metas loses its `if self.is_alive()` guard", "a merge of committed segments whose end_merge task is queued or running when rollback() is called, and the new writer committing before the old task reaches save_metas (the F43 mechanism, written before its repair)"),
+    "C10-s13": ("C10", "remap_and_write untracks the temporary doc store right after closing it, before StoreReader::open re-reads it", "a sorted index and a garbage collection exactly between the close and the re-open of <segment>.store.temp by the finalising indexing thread"),
+    "C02-s13": ("C02", "SegmentManager::remove_all_segments (delete_all_documents) no longer clears the uncommitted register", "a flushed uncommitted segment at the moment delete_all_documents is called (dropped prepare_commit, memory-budget cut, uncommitted merge result), then a commit"),
+    "C04-s13": ("C04", "merge(): a source segment with no delete operation pending below the target opstamp skips advance_deletes", "a segment containing add X ... delete X ... another add, merged while still uncommitted, no newer delete pending when the merge starts: the deleted document comes back"),
+    "C05-s13": ("C05", "MmapDirectory's ReleaseLockFile::drop also unlinks the lock file (flock + unlink race on .tantivy-meta.lock)", "MmapDirectory, reader and writer on separate directory instances, a reload queued behind another lock holder and pre-empted between reading meta.json and opening a segment, the writer merging and collecting meanwhile"),
+    "C11-s13": ("C11", "the doc-store compressor thread keeps draining its channel after a failed write and only reports the LAST block's result", "a transient write fault on .store on the compressor thread that is not the last block written: commit returns Ok while later doc ids are shifted"),
+    "C18-s13": ("C18", "MmapDirectory::acquire_lock builds the ReleaseLockFile guard (which now removes the file on drop) before try_lock_exclusive", "MmapDirectory and at least TWO creation attempts while one writer is alive: the first is refused and unlinks the lock file, the second succeeds"),
+    "C13-s13": ("C13", "ExclusionSet::contains trusts docset.doc() whenever doc() >= target instead of calling seek_danger", "a MustNot clause with a real danger zone (nested conjunction or phrase): after a seek_danger miss the excluded scorer's doc() is not a match, so non-excluded documents are dropped depending on the probes made"),
     "C08-s7": ("C08", "BitUnpacker::get_ids_for_value_range truncates the upper bound to 32 bits instead of clamping it", "a bit-packed column of width <= 32 and a range whose upper bound (after min/gcd normalisation) is >= 2^32 with low 32 bits below the matching values"),
 }
 
@@ -61,6 +69,7 @@ def rows(pattern):
 
 NOTES = {
     "C02-s12": "NOT a valid seed: with this patch the pinned suite fails intermittently (indexer::index_writer::tests::test_delete_proptest_with_merge draws fresh random cases; it failed in my confirmation run, passed in the author's). Kept as a detection target only.",
+    "C01-s13": "written against 4a0877aa2, just before the F43 repair (kill() waits for the running task): on the current tree its demonstration passes with the patch too - the guard it removes is now redundant, the mutation is equivalent. Kept for the record; no check is expected to report it.",
     "C11-s9": "written before the F40 repair: its demonstration (commit fails, the writer is kept, explicit GC) now ends with 'Segment updater killed' on both trees; the mutation still manifests through a failed meta.json replacement at the end of a MERGE followed by a collection (C11 publish-fault enumeration, StorageProto_negS11)",
 }
 confirm = {r[0]: r[1:] for r in rows("/tmp/confirm.tsv")}
